@@ -308,6 +308,18 @@ func (t *Table) LeftOptionalJoin(t2 *Table) error {
 	if disjointBindings(t.mbs, t2.mbs) {
 		// The tables has nothing in commnon. Hence, we are going to treat it
 		// as a regular cross product.
+		if t2.NumRows() == 0 {
+			// A cross product with nothing would drop every row, but the right
+			// side is optional: the left rows stay, extended with empty cells.
+			t.mu.Lock()
+			defer t.mu.Unlock()
+			ubs := unionBindings(t.mbs, t2.mbs)
+			for i, r := range t.Data {
+				t.Data[i] = extendRow(r, ubs)
+			}
+			t.unsafeAddBindings(t2.Bindings())
+			return nil
+		}
 		return t.DotProduct(t2)
 	}
 	// There are some overlapping bindings. That requires to sort both tables
